@@ -32,6 +32,13 @@ def loop {σ : Type} (lo hi : Int) (s : σ) (f : Int → σ → Option σ) : Opt
 def loopAny (lo hi : Int) (c : Int → Option Bool) : Option Bool :=
   (List.range (hi - lo).toNat).foldlM (fun (found : Bool) (k : Nat) => if found then some true else c (lo + (k : Int))) false
 
+/-- a counted loop whose body may `return e;` (`Sum.inl e`: iterations after it are not executed, they cannot fault) or carry its state
+    on (`Sum.inr s`) -/
+def loopRet {σ ρ : Type} (lo hi : Int) (s : σ) (f : Int → σ → Option (ρ ⊕ σ)) : Option (ρ ⊕ σ) :=
+  loop lo hi (Sum.inr s) fun i acc => match acc with
+    | Sum.inl r => some (Sum.inl r)
+    | Sum.inr s => f i s
+
 /-- libc `qsort (a, n, sizeof (T), cmp)`: the first `n` cells are rearranged into an arrangement ordered by `cmp` (modelled by a
     merge sort: for a comparator that is a total preorder the ordered arrangement is unique up to the order of equal keys) -/
 def qsortM {α : Type} (a : Array α) (n : Int) (cmp : α → α → Int) : Option (Array α) :=
